@@ -38,6 +38,7 @@ import ClarabelProofs.Lemmas.KktQdldlNoZeroPivot
 import ClarabelProofs.Lemmas.KktStaticOnly
 import ClarabelProofs.Lemmas.KktSocDenseHs
 import ClarabelProofs.Lemmas.KktFormGenPow
+import ClarabelProofs.Lemmas.KktRanges
 
 namespace Clarabel.C11
 open Clarabel Clarabel.Csc Clarabel.Kkt
@@ -2274,5 +2275,66 @@ example : ∃ (st' : Clarabel.GenPow.State ℝ) (blocks : List (Array ℝ)),
   · intro x hx; simp at hx; subst hx; norm_num
 
 end cone_model_blocks
+
+section cone_ranges
+open Clarabel.Lemmas.KktRanges
+
+/-- [S] `make_rng_cones` (and the iterator `rng_cones_iter`, which runs the same loop): one range
+per cone; range `i` is `Σ_{k<i} numel k .. Σ_{k≤i} numel k`; the ranges are consecutive, an earlier
+one stops before a later one starts, every index below `Σ numel` lies in one of them, and their
+starts are the offsets `rngConesStart` the assembly model places the cone blocks at. -/
+theorem cone_ranges_partition (cones : List ConeSpec) :
+    rngConesIter cones = makeRngCones cones ∧
+    (makeRngCones cones).length = cones.length ∧
+    (∀ i (h : i < (makeRngCones cones).length), (makeRngCones cones)[i] =
+      (((cones.map ConeSpec.numel).take i).sum, ((cones.map ConeSpec.numel).take (i + 1)).sum)) ∧
+    (∀ i (h : i + 1 < (makeRngCones cones).length),
+      ((makeRngCones cones)[i + 1]).1 = ((makeRngCones cones)[i]'(Nat.lt_of_succ_lt h)).2) ∧
+    (∀ i j (hij : i < j) (h : j < (makeRngCones cones).length),
+      ((makeRngCones cones)[i]'(Nat.lt_trans hij h)).2 ≤ ((makeRngCones cones)[j]).1) ∧
+    (∀ k, k < (cones.map ConeSpec.numel).sum → ∃ r ∈ makeRngCones cones, r.1 ≤ k ∧ k < r.2) ∧
+    (makeRngCones cones).map (·.1) = rngConesStart cones := by
+  refine ⟨rfl, ?_, ?_, ?_, ?_, ?_, ?_⟩
+  · unfold makeRngCones; rw [makeRangesFrom_length, List.length_map]
+  · intro i h
+    have e := makeRangesFrom_getElem (cones.map ConeSpec.numel) 0 i h
+    rw [Nat.zero_add, Nat.zero_add] at e
+    exact e
+  · intro i h; exact makeRangesFrom_consecutive _ 0 i h
+  · intro i j hij h; exact makeRangesFrom_disjoint _ 0 i j hij h
+  · intro k hk
+    exact makeRangesFrom_cover _ 0 k (Nat.zero_le k) (by rw [Nat.zero_add]; exact hk)
+  · exact makeRangesFrom_starts _
+
+/-- [S] `make_rng_blocks`: the same for the `Hs` blocks with widths `blockLen` (`numel` for a
+diagonal block, `numel (numel + 1) / 2` otherwise); the starts are `rngBlocksStart`, and
+`allocate_kkt_Hsblocks` allocates exactly `hsblocksLen = Σ blockLen` entries — where the last
+block range stops. -/
+theorem block_ranges_partition (cones : List ConeSpec) :
+    (makeRngBlocks cones).length = cones.length ∧
+    (∀ i (h : i < (makeRngBlocks cones).length), (makeRngBlocks cones)[i] =
+      (((cones.map ConeSpec.blockLen).take i).sum, ((cones.map ConeSpec.blockLen).take (i + 1)).sum)) ∧
+    (∀ i (h : i + 1 < (makeRngBlocks cones).length),
+      ((makeRngBlocks cones)[i + 1]).1 = ((makeRngBlocks cones)[i]'(Nat.lt_of_succ_lt h)).2) ∧
+    (∀ i j (hij : i < j) (h : j < (makeRngBlocks cones).length),
+      ((makeRngBlocks cones)[i]'(Nat.lt_trans hij h)).2 ≤ ((makeRngBlocks cones)[j]).1) ∧
+    (∀ k, k < (cones.map ConeSpec.blockLen).sum → ∃ r ∈ makeRngBlocks cones, r.1 ≤ k ∧ k < r.2) ∧
+    (makeRngBlocks cones).map (·.1) = rngBlocksStart cones ∧
+    allocateKktHsblocksLen cones = hsblocksLen cones ∧
+    hsblocksLen cones = (cones.map ConeSpec.blockLen).sum := by
+  refine ⟨?_, ?_, ?_, ?_, ?_, ?_, allocateKktHsblocksLen_eq cones, ?_⟩
+  · unfold makeRngBlocks; rw [makeRangesFrom_length, List.length_map]
+  · intro i h
+    have e := makeRangesFrom_getElem (cones.map ConeSpec.blockLen) 0 i h
+    rw [Nat.zero_add, Nat.zero_add] at e
+    exact e
+  · intro i h; exact makeRangesFrom_consecutive _ 0 i h
+  · intro i j hij h; exact makeRangesFrom_disjoint _ 0 i j hij h
+  · intro k hk
+    exact makeRangesFrom_cover _ 0 k (Nat.zero_le k) (by rw [Nat.zero_add]; exact hk)
+  · exact makeRangesFrom_starts _
+  · unfold hsblocksLen; rw [foldl_add_eq_sum, Nat.zero_add]
+
+end cone_ranges
 
 end Clarabel.C11
